@@ -95,6 +95,7 @@ def _requirements(tier):
         "rt:year-20xx": 1000 * k,
         "fo:written": 2500 * k, "fo:epoch-label:TT": 300 * k, "fo:epoch-label:TAI": 300 * k, "fo:epoch-label:GPS": 300 * k,
         "fo:form-not-tle": 600 * k,
+        "fo:drag-mantissa-rounds-up": 150 * k,
         "fo:frame-EME2000": 200 * k,
         "fo:refused": 50 * k,
         "corr:digit-mutants": 40000 * k,
@@ -485,6 +486,16 @@ def run_from_orbit(ctx, job, idx, rng, st):
     bstar = rng.choice([0.0, lu(1e-9, 0.9), -lu(1e-9, 0.9), lu(1e-6, 1e-3), -lu(1e-6, 1e-3)])
     ndd6 = rng.choice([0.0, 0.0, lu(1e-9, 1e3), -lu(1e-9, 1e3)])
     nd2 = rng.choice([0.0, rng.uniform(-0.9, 0.9), lu(1e-9, 1e-2), -lu(1e-9, 1e-2)])
+    # round-7 seed: values whose five printed digits round UP to the next decade (mantissa in [0.999995, 1) x 10^k): the
+    # carry has to reach the printed exponent.  Never produced by parsing TLE text, only by orbits built from numbers.
+    carry = None
+    if sel in (0, 2) and idx % 4 < 2:
+        carry = rng.choice(["bstar", "nddot"])
+        val = rng.choice([1, -1]) * (1.0 - rng.uniform(1e-8, 4.9e-6)) * 10.0 ** rng.randint(-8, -1 if carry == "bstar" else 2)
+        if carry == "bstar":
+            bstar = val
+        else:
+            ndd6 = val
     if sel == 5:
         bstar, in_range, edge = rng.choice([1, -1]) * lu(1e-14, 1e-11), False, "bstar-exponent<-9"
     if sel == 6 and idx % 20 == 6:
@@ -554,6 +565,9 @@ def run_from_orbit(ctx, job, idx, rng, st):
         return
     ctx.case(descr)
     ctx.count("fo:written")
+    if carry:
+        ctx.count("fo:drag-mantissa-rounds-up")
+        ctx.count("fo:drag-mantissa-rounds-up:" + carry)
     if edge:
         ctx.count("fo:edge:" + edge)
     lines = text.splitlines()
